@@ -6,6 +6,7 @@ import (
 	"path/filepath"
 	"sort"
 	"strings"
+	"syscall"
 	"time"
 
 	"github.com/mk6i/mkdb/engine"
@@ -131,6 +132,8 @@ type World struct {
 	Knobs Knobs
 	Prop  string
 	Sess  *engine.Session
+	// OpenFault: "log" / "data" while a statement runs whose open of that file is to fail once
+	OpenFault string
 
 	stores  []*storeState
 	byFS    map[*storage.VerifStore]*storeState
@@ -282,6 +285,12 @@ func installHooks() {
 			if w := curWorld; w != nil {
 				w.hookReplay(fs, op, lsn, pg, cell, redo)
 			}
+		},
+		OpenFault: func(path string) error {
+			if w := curWorld; w != nil {
+				return w.hookOpenFault(path)
+			}
+			return nil
 		},
 		LRU: func(l *storage.LRUCache, k int, key any, n *storage.VerifNode) {
 			if w := curWorld; w != nil {
@@ -680,6 +689,55 @@ func (w *World) settle(st *storeState) {
 		w.runFlusher(st)
 	}
 	st.lazy = false
+}
+
+// hookOpenFault: the armed open error (Stmt.OpenFail) fires once, at the
+// first open of the named file inside the statement.
+func (w *World) hookOpenFault(path string) error {
+	if w.OpenFault == "" || !w.inStmt {
+		return nil
+	}
+	base := filepath.Base(path)
+	if (w.OpenFault == "log" && base == "wal") || (w.OpenFault == "data" && base != "wal") {
+		w.OpenFault = ""
+		w.count("open_error_injected")
+		w.h(21, uint64(len(path)))
+		return &os.PathError{Op: "open", Path: path, Err: syscall.EMFILE}
+	}
+	return nil
+}
+
+// checkOneFlusher: when a statement has returned, at most one store with a
+// live flusher exists (the one the session holds). A second one - left by a
+// USE that failed half-way - writes its own stale header over the file on
+// its own timer, excluded by nothing from the statements on that file.
+func (w *World) checkOneFlusher() {
+	if w.Viol != nil || w.inRecovery {
+		return
+	}
+	var live []*storeState
+	for _, st := range w.stores {
+		if st.auto && !st.exited && !st.killed {
+			live = append(live, st)
+		}
+	}
+	if len(live) <= 1 {
+		return
+	}
+	held, stray := "", live[0]
+	if w.Sess != nil && w.Sess.RelationService != nil {
+		if st := w.byFS[w.Sess.RelationService.VerifStore()]; st != nil {
+			held = st.db
+			for _, l := range live {
+				if l != st {
+					stray = l
+					break
+				}
+			}
+		}
+	}
+	w.raise(w.Prop, "O-oneflusher", fmt.Sprintf("after a %s statement %d stores have a running flusher (session holds %q): a store nobody holds keeps writing its header to %s", w.stmtKind, len(live), held, stray.path),
+		map[string]string{"stmt": w.stmtKind, "kind": "leaked-flusher"})
 }
 
 func (w *World) hookClose(fs *storage.VerifStore) {
@@ -1094,6 +1152,8 @@ func (w *World) BeginStmt(idx int, kind string, dirs []Directive) {
 func (w *World) EndStmt() {
 	w.inStmt = false
 	w.directives = nil
+	w.OpenFault = ""
+	w.checkOneFlusher()
 }
 
 // SessionLocks is the number of store locks the session task holds.
